@@ -36,7 +36,9 @@ LossyM(v, ty) ==
          [] OTHER -> FALSE
 \* event mp: [v, ty, m = [ok, len], back = R, eq = "T"|"F"|"U"|"P" (orig.Equals(back))]
 MpFailed(e) ==
-  IF MarksIn(e.v) # {} THEN (IF e.m.ok THEN {"C16.MarkedRejected"} ELSE IF e.m.fail = "panic" THEN {"C16.NoPanic"} ELSE {})
+  \* premise of the property: the value's type conforms to the constraint (otherwise only "no panic" is claimed)
+  IF ~Conforms(e.v.ty, e.ty) THEN (IF (~e.m.ok /\ e.m.fail = "panic") \/ (e.m.ok /\ ~e.back.ok /\ e.back.fail = "panic") THEN {"C16.NoPanic"} ELSE {})
+  ELSE IF MarksIn(e.v) # {} THEN (IF e.m.ok THEN {"C16.MarkedRejected"} ELSE IF e.m.fail = "panic" THEN {"C16.NoPanic"} ELSE {})
   ELSE IF ~e.m.ok THEN (IF e.m.fail = "panic" THEN {"C16.NoPanic"} ELSE {"C16.MarshalAcceptsConformingValue"})
   ELSE IF ~e.back.ok THEN (IF e.back.fail = "panic" THEN {"C16.NoPanic"} ELSE IF LossyM(e.v, e.ty) THEN {"C16.RoundTrip.NullOrEmptyUnderNestedPlaceholder"} ELSE {"C16.UnmarshalAcceptsOwnEncoding"})
   ELSE (IF RtOK(e.v, e.back.val) THEN {}
